@@ -1,5 +1,94 @@
 #!/usr/bin/env python3
-"""thorough tier placeholder: runs the quick analysis with tier=thorough (self-test corpus is added later)."""
-import os, sys, subprocess
+"""Thorough tier of one property.
+
+1. runs the analysis on the repository (writes the evidence file, tier=thorough);
+2. sensitivity self-test: every mutant patch of mutants/index.json tagged with the property is applied to a
+   scratch copy of the repository (outside /repo and /verif, removed afterwards) and analysed in a separate
+   process; the run must report a violation whose rule name contains the expected substring;
+3. specificity self-test: every behaviour-preserving "refactor" patch tagged with the property must leave the
+   verdicts unchanged (no violation that the unmodified tree does not have).
+The results are merged into the evidence file.  A mutant that is not detected, or a refactor that raises an
+alarm, makes the check fail (kind "selftest"): a checker that lost its teeth or grew false ones must not pass."""
+import json, os, subprocess, sys, tempfile, shutil, time, re
+from concurrent.futures import ThreadPoolExecutor
+
 pid, repo = sys.argv[1], sys.argv[2]
-sys.exit(subprocess.call(["./bin/alliancecheck","-repo",repo,"-verif",os.getcwd(),"-property",pid,"-tier","thorough"]))
+verif = os.path.dirname(os.path.dirname(os.path.abspath(__file__)))
+binp = os.path.join(verif, "bin", "alliancecheck")
+env = dict(os.environ, GOFLAGS="-mod=mod", GOPROXY="off", GOSUMDB="off", GOTOOLCHAIN="local")
+env.pop("GOWORK", None)
+t0 = time.time()
+
+base = subprocess.run([binp, "-repo", repo, "-verif", verif, "-property", pid, "-tier", "thorough"], capture_output=True, text=True, env=env)
+sys.stdout.write(base.stdout)
+rc = base.returncode
+
+def verdicts(out):
+    return sorted(set(re.findall(r"^\s+(?:VIOLATION|UNDECIDED): (.*)$", out, re.M)))
+
+base_v = verdicts(base.stdout)
+idx = json.load(open(os.path.join(verif, "mutants", "index.json")))
+cases = [(n, m) for n, m in sorted(idx.items()) if pid in m["props"]]
+
+def run_case(item):
+    name, m = item
+    d = tempfile.mkdtemp(prefix="allmut.")
+    try:
+        subprocess.run(["rsync", "-a", "--exclude", ".git", repo.rstrip("/") + "/", d + "/"], check=True)
+        p = subprocess.run(["patch", "-p1", "-s", "--no-backup-if-mismatch", "-i", os.path.join(verif, "mutants", name + ".patch")], cwd=d, capture_output=True, text=True)
+        if p.returncode != 0:
+            return name, m, "skipped", "patch does not apply to the tree under test"
+        r = subprocess.run([binp, "-repo", d, "-verif", verif, "-property", pid, "-no-evidence"], capture_output=True, text=True, env=env)
+        out = r.stdout.replace(d + "/", "")
+        v = verdicts(out)
+        new = [x for x in v if x not in base_v]
+        if m["kind"] == "mutant":
+            hit = [x for x in new if m["expect"] in x]
+            if "cannot load" in out:
+                return name, m, "skipped", "variant does not type-check"
+            return name, m, ("detected" if hit else "MISSED"), (hit[0] if hit else "; ".join(new) or "no new violation")
+        else:
+            return name, m, ("silent" if not new else "ALARM"), "; ".join(new)
+    finally:
+        shutil.rmtree(d, ignore_errors=True)
+
+results = []
+with ThreadPoolExecutor(max_workers=6) as ex:
+    for res in ex.map(run_case, cases):
+        results.append(res)
+
+sel = {"mutants": 0, "detected": 0, "refactors": 0, "silent": 0, "skipped": 0, "cases": []}
+bad = []
+for name, m, status, detail in results:
+    sel["cases"].append({"name": name, "kind": m["kind"], "expect": m["expect"], "status": status, "detail": detail[:300]})
+    if status == "skipped":
+        sel["skipped"] += 1
+    elif m["kind"] == "mutant":
+        sel["mutants"] += 1
+        sel["detected"] += status == "detected"
+        if status != "detected":
+            bad.append((name, status, detail))
+    else:
+        sel["refactors"] += 1
+        sel["silent"] += status == "silent"
+        if status != "silent":
+            bad.append((name, status, detail))
+print("selftest %s: %d/%d mutants detected, %d/%d refactors silent, %d skipped" % (pid, sel["detected"], sel["mutants"], sel["silent"], sel["refactors"], sel["skipped"]))
+
+evp = os.path.join(verif, "evidence", pid + ".json")
+try:
+    ev = json.load(open(evp))
+    ev["coverage"]["selftest"] = sel
+    ev["wall_s"] = round(time.time() - t0, 2)
+    json.dump(ev, open(evp, "w"), indent=1)
+except Exception as e:
+    print("cannot update evidence:", e)
+    rc = 1
+for i, (name, status, detail) in enumerate(bad):
+    os.makedirs(os.path.join(verif, "evidence", "violations"), exist_ok=True)
+    path = os.path.join(verif, "evidence", "violations", "%s-selftest-%02d.json" % (pid, i + 1))
+    json.dump({"property": pid, "kind": "selftest", "variant": name, "status": status, "detail": detail}, open(path, "w"), indent=1)
+    print("  SELFTEST %s: %s (%s)" % (status, name, detail[:200]))
+    print("VIOLATION property=%s replay=%s" % (pid, path))
+    rc = 1
+sys.exit(rc)
